@@ -341,3 +341,40 @@ Proof.
   rewrite !be_val_be_bytes by (rewrite W64_val in *; cbn; lia).
   destruct s as [h l]; cbn [hi lo]. f_equal.
 Qed.
+
+(* ---------- C06: resuming from a captured generator state --------------- *)
+Lemma pcg_draws_wf k : forall s, pcg_wf s \/ k <> O -> pcg_wf (snd (pcg_draws k s)) \/ (k = O).
+Proof.
+  induction k as [|k IH]; intros s H; [right; reflexivity|]. left.
+  cbn [pcg_draws]. unfold pcg_next. destruct (pcg_draws k (pcg_step s)) as [vs s2] eqn:E. cbn [snd].
+  destruct k as [|k'].
+  - cbn in E. inversion E; subst. apply pcg_step_wf.
+  - specialize (IH (pcg_step s) (or_introl (pcg_step_wf s))). rewrite E in IH. cbn [snd] in IH.
+    destruct IH as [IH|IH]; [exact IH|discriminate].
+Qed.
+
+(* installing the captured 16 bytes in a fresh source continues the identical sequence *)
+Lemma pcg_resume k s : pcg_wf s ->
+  match pcg_unmarshal (pcg_marshal s) with
+  | Some s' => pcg_draws k s' = pcg_draws k s
+  | None => False
+  end.
+Proof. intros H. rewrite pcg_marshal_roundtrip by exact H. reflexivity. Qed.
+
+Lemma pcg_draws_app a b s :
+  pcg_draws (a + b) s = let '(v1, s1) := pcg_draws a s in let '(v2, s2) := pcg_draws b s1 in (v1 ++ v2, s2).
+Proof.
+  revert s; induction a as [|a IH]; intros s; cbn [Nat.add pcg_draws].
+  - destruct (pcg_draws b s); reflexivity.
+  - destruct (pcg_next s) as [v s1]. rewrite IH.
+    destruct (pcg_draws a s1) as [v1 s2]. destruct (pcg_draws b s2) as [v2 s3]. reflexivity.
+Qed.
+
+Lemma pcg_marshal_length s : length (pcg_marshal s) = 16%nat.
+Proof. unfold pcg_marshal. rewrite app_length, !be_bytes_length. reflexivity. Qed.
+
+(* a seed shorter than 16 bytes is rejected by UnmarshalBinary (Init then keeps the zero state) *)
+Lemma pcg_unmarshal_short d : (length d < 16)%nat -> pcg_unmarshal d = None.
+Proof.
+  intros H. unfold pcg_unmarshal. destruct (Nat.ltb_spec (length d) 16); [reflexivity|lia].
+Qed.
